@@ -29,8 +29,28 @@ RULE = ('seeded generator of (schema, op list): 1-3 entities, 1-3 scalar attribu
 
 
 def correspondence(ctx): return chk.correspondence(ctx, ID)
-def search(ctx, deep): return chk.search(ctx, deep, ID)
-def replay(ctx, data): return chk.replay(ctx, data, ID)
+def _scenarios(cases=None):
+    """tools/session_scenarios.py: fixed multi-step scenarios the history fuzzer does not generate (see its docstring)."""
+    import vlib
+    out = vlib.run_impl('session_scenarios.py', {'family': 'c11', 'cases': cases}, timeout=600)['results']
+    return [vlib.Failure('c11-scenario:' + r['case'], 'a unique key value does not map to the object that holds it (%s): %s' % (r['case'], r['detail'][:700]), {'scenario_case': r['case']})
+            for r in out if not r['ok']], len(out)
+
+
+def search(ctx, deep):
+    s = chk.search(ctx, deep, ID)
+    fails, n = _scenarios()
+    s.failures = fails + list(s.failures)
+    s.evaluations += n
+    s.distribution['fixed_scenarios'] = n
+    return s
+
+
+def replay(ctx, data):
+    if 'scenario_case' in data:
+        fails, _ = _scenarios([data['scenario_case']])
+        return fails[0] if fails else None
+    return chk.replay(ctx, data, ID)
 
 
 LEVEL_TEXT = ('Machine-checked proof (Coq 8.16.1) over an executable mechanism-level model of Pony\'s session cache, Stage 1 schema space (single integer primary key, '
@@ -38,6 +58,7 @@ LEVEL_TEXT = ('Machine-checked proof (Coq 8.16.1) over an executable mechanism-l
               'delete with cascades, collection add/remove/assign, loading reads, Entity[pk]/get/select, flush/commit/rollback/new session) the index invariant '
               'Inv_idx (an index entry exists exactly for the live object holding that key value) holds and the identity map is functional, provided no dirty site '
               'was reached; the two defect sites relevant to C11 (failed Entity.set, failed creation) have witnesses in Findings/C11.v that refute the invariant for the OLD shape of the code; both are repaired in /repo (cd0fda9, 751c8a4), the witnesses are stated under the source-derived flags entity_set_registers_undo / failed_create_unregisters (vacuous on HEAD) and the findings are recorded as fixed; the model still treats a failed creation as dirty site 1 (it claims nothing after it). '
+              'In addition fixed scenarios (tools/session_scenarios.py, family c11; implementation side, every run): a placeholder reached through a relationship gets a pending write of one or two unique attributes and its row is then loaded with flushing disabled (Entity.set / a reverse assignment of an unloaded to-one attribute) or after a flush (attribute read, query): every unique value must map to the object holding it, get() must find it, a second holder must be refused, the vacated value must be reusable. '
               'Tie: history fuzzer compares per-op results and per-commit rows of the model (vm_compute) with real Pony+SQLite on every run. '
               'Stage 2/3 (one-to-one, many-to-many, composite keys, inheritance) are outside the theorems; one-to-one, many-to-many and composite_key are covered on the implementation side only '
               '(half of the search histories; the composite index is checked like a simple one) - that search found a third defect: a creation that succeeds with two live objects holding one unique value.')
